@@ -258,7 +258,7 @@ func init() {
 		}},
 		Body{"Rating sequences A (3 packages)", func(keep *[]Retained) string {
 			out := ""
-			for _, sc := range []float64{2.0, 9.5, 11, 11, 2.0, -0.1, 0, 4.0} {
+			for _, sc := range []float64{2.0, 9.5, 11, 11, 2.0, -0.1, 0, 4.0, 6.97, 8.95} {
 				a, e1 := gocvss30.Rating(sc)
 				b, e2 := gocvss31.Rating(sc)
 				c, e3 := gocvss40.Rating(sc)
@@ -268,7 +268,7 @@ func init() {
 		}},
 		Body{"Rating sequences B (3 packages)", func(keep *[]Retained) string {
 			out := ""
-			for _, sc := range []float64{7.0, 0.1, 10.5, 7.0, 3.9, 10, 10.5, 6.9} {
+			for _, sc := range []float64{7.0, 0.1, 10.5, 7.0, 3.9, 10, 10.5, 6.9, 3.96, 9.0, 0.06} {
 				a, e1 := gocvss30.Rating(sc)
 				b, e2 := gocvss31.Rating(sc)
 				c, e3 := gocvss40.Rating(sc)
